@@ -534,7 +534,7 @@ def _load_and_execute_estimation(
 ) -> EstimationResult:
     # Load
     with open(empi_dists_path, "rb") as f:
-        empi_dists_path = pickle.load(f)
+        empi_dists_seq = pickle.load(f)
     estimation_result = _execute_estimation(
         qtomography=qtomography,
         empi_dists_seq=empi_dists_seq,
